@@ -12,15 +12,41 @@ Decided (two necessary conditions only - claim: narrow):
         and the codec used for the bytes denote the same codec, the header is rebuilt after the parameter was set,
         and the text is encoded with ``surrogateescape``; ``get_text(strict=False)`` falls back to the same codec and
         error handler.
-NOT decided: everything value-level (all strings x all charsets x all content types).
+  R32.3 every stored body is in the charset the decoder will choose (path rule over ``set_text``): on every returning path the
+        last value written to ``self.content`` is ``None`` (only where the text is None), empty bytes (only where the text
+        is falsy), or the *unmodified text parameter* encoded (``encoding.encode(text, E)`` | ``text.encode(E, ...)`` |
+        ``codecs.encode(text, E, ...)``, optionally inside ``cast``) with a codec ``E`` that is EITHER the value
+        ``infer_content_encoding`` returned on this path (the charset ``get_text`` infers from the same header) OR a
+        constant that the same path declares in the ``charset`` parameter and writes back with ``assemble_content_type``
+        (the R32.2 shape).  A path that stores the text under a constant codec without touching the header, and whose
+        branch conditions do not depend on the header / inferred charset, is reachable for a header whose charset
+        encodes the same text to other bytes (utf-16le, utf-32be, cp037, an unknown name): ``get_text`` then decodes
+        with another codec (mojibake / ValueError), or the "update the declared charset" clause is skipped.  A path
+        that returns without storing anything drops the text.  Shapes outside the enumerated idioms (constant-codec
+        store guarded by a test on the inferred charset, codec computed from the inferred one, helper methods) are
+        ANALYSIS-ERRORs, never violations.
+  R32.4 header-first ordering, decided on a finite table by interpreting ``infer_content_encoding`` (pyint, trusted ``re``
+        / ``collections``): while the encoder infers from the Content-Type alone (F-C32), for every media type x
+        explicit ``charset=H`` x BOM-free body carrying an in-body declaration of another charset (<meta charset>,
+        <meta http-equiv>, <?xml encoding?>, @charset) the decoder's ``infer(ct, body)`` must equal the encoder's
+        ``infer(ct)``.  (Without a header charset and for BOMs the two already differ: that is exactly the known
+        finding F-C32 and is reported by R32.1 only.)  If an in-body declaration outranks an explicit header charset,
+        ``set_text`` writes the header's charset and ``get_text`` reads the body's: a different, new disagreement.
+        The rule is not armed once the encoder hands the produced bytes to the inference as well (then ordering is
+        immaterial and R32.1 decides).
+NOT decided: everything value-level (all strings x all charsets x all content types); whether codecs that share a name
+        normalisation really are inverse; encoding.encode/decode themselves.
 """
 
 from __future__ import annotations
 
 import ast
 
+from ..core import AnalysisError
 from ..model import attr_chain
 from ..model import last_attr
+from ..pyint import Interp
+from ..pyint import Raised
 from ..selftest import Mutant
 from ._helpers_E import expect
 from ._helpers_E import params
@@ -30,10 +56,14 @@ from ._helpers_E import show
 PROP = "C32"
 REG = {
     "strength": "narrow",
-    "technique": "sibling agreement: evidence passed to infer_content_encoding by encoder vs decoder (restricted to parameters the function reads) + path rule on the fallback branches",
+    "technique": "sibling agreement: evidence passed to infer_content_encoding by encoder vs decoder (restricted to parameters the function reads) + path rules on set_text "
+    "(every stored body is encoded with the inferred charset or with a constant the path declares in the header) + decision table of infer_content_encoding "
+    "interpreted from its AST over media types x header charsets x in-body declarations (header-first ordering)",
     "claim": "set_text and get_text infer the charset from the same evidence (violated on the pinned tree: known finding F-C32); the UTF-8 "
-    "fallback of set_text declares the codec it encodes with and get_text(strict=False) falls back to the same codec and error handler.",
-    "note": "Two necessary conditions; no value-level round-trip is decided.",
+    "fallback of set_text declares the codec it encodes with and get_text(strict=False) falls back to the same codec and error handler; every path of "
+    "set_text stores the unmodified text encoded with the charset get_text infers from the header or rewrites the header to the constant it used; "
+    "an explicit Content-Type charset is never outranked by a BOM-free in-body declaration, so the F-C32 asymmetry stays confined to header-less charsets and BOMs.",
+    "note": "Four necessary conditions; no value-level round-trip is decided. R32.4 trusts re/collections and interprets infer_content_encoding + parse_content_type only.",
 }
 
 HTTP = "mitmproxy/http.py"
@@ -49,9 +79,270 @@ def _q(s):
     return s.replace('"', "'")
 
 
+# ---------------------------------------------------------------------------------------------------
+# R32.3 helpers
+
+
+def _expr(txt):
+    try:
+        return ast.parse(txt, mode="eval").body
+    except SyntaxError:
+        return None
+
+
+def _falsy_fact(trace, name):
+    """What the branches taken on the path establish about ``name``: 'none' (is None), 'falsy' (None or empty),
+    'present' (the opposite of either), or None (nothing known).  Idioms: X | not X | X is None | X is not None |
+    X == None | X != None | X == '' | X != '' | len(X) == 0 | len(X) != 0 | len(X) > 0."""
+    res = None
+    for e in trace:
+        if e[0] != "cond":
+            continue
+        x, val = _expr(e[1]), e[2]
+        while isinstance(x, ast.UnaryOp) and isinstance(x.op, ast.Not):
+            x, val = x.operand, not val
+        if x is None:
+            continue
+        hit = None  # (kind established when the test is true)
+        if attr_chain(x) == name:
+            hit, val = "falsy", not val
+        elif isinstance(x, ast.Compare) and len(x.ops) == 1 and isinstance(x.comparators[0], ast.Constant):
+            c, op, lhs = x.comparators[0].value, x.ops[0], x.left
+            is_len = isinstance(lhs, ast.Call) and last_attr(lhs.func) == "len" and len(lhs.args) == 1 and attr_chain(lhs.args[0]) == name
+            if attr_chain(lhs) == name and (c is None or c == ""):
+                hit = "none" if c is None else "falsy"
+                if isinstance(op, (ast.IsNot, ast.NotEq)):
+                    val = not val
+                elif not isinstance(op, (ast.Is, ast.Eq)):
+                    hit = None
+            elif is_len and c == 0:
+                hit = "falsy"
+                if isinstance(op, (ast.NotEq, ast.Gt)):
+                    val = not val
+                elif not isinstance(op, ast.Eq):
+                    hit = None
+        if hit is not None:
+            # a failed 'is None' test says nothing about emptiness, a failed falsiness test means present
+            res = hit if val else ("present" if hit == "falsy" or res is None else res)
+    return res
+
+
+def _strip_cast(e):
+    while isinstance(e, ast.Call) and last_attr(e.func) == "cast" and len(e.args) == 2 and not e.keywords:
+        e = e.args[1]
+    return e
+
+
+def _encode_idiom(e, text):
+    """(codec expression | 'utf-8' default) if ``e`` is ``text.encode(E, ...)`` / ``<module>.encode(text, E, ...)``; else None."""
+    if not (isinstance(e, ast.Call) and isinstance(e.func, ast.Attribute) and e.func.attr == "encode"):
+        return None
+    if any(isinstance(a, ast.Starred) for a in e.args) or any(k.arg is None for k in e.keywords):
+        return None
+    kw = {k.arg: k.value for k in e.keywords}
+    if attr_chain(e.func.value) == text:  # str.encode(encoding='utf-8', errors='strict')
+        return e.args[0] if e.args else kw.get("encoding", ast.Constant(value="utf-8"))
+    if attr_chain(e.func.value) in ("encoding", "codecs", "mitmproxy.net.encoding") and e.args and attr_chain(e.args[0]) == text:
+        if len(e.args) > 1:
+            return e.args[1]
+        if "encoding" in kw:
+            return kw["encoding"]
+        return ast.Constant(value="utf-8") if attr_chain(e.func.value) == "codecs" else None
+    return None
+
+
+def _deref(e, trace, idx, depth=0):
+    """Follow a local name back to the expression last assigned to it before position idx -> (expression, position)."""
+    e = _strip_cast(e)
+    if isinstance(e, ast.Name) and depth < 6:
+        for j in range(idx - 1, -1, -1):
+            ev = trace[j]
+            if ev[0] == "assign" and ev[1] == e.id:
+                v = _expr(ev[2])
+                return _deref(v, trace, j, depth + 1) if v is not None else (e, idx)
+    return e, idx
+
+
+def _resolve_codec(e, trace, idx, depth=0):
+    """('const', name) | ('infer', None) | ('other', text): what the codec expression denotes at position idx of the path."""
+    if isinstance(e, ast.Constant) and isinstance(e.value, str):
+        return ("const", e.value)
+    if isinstance(e, ast.Call) and last_attr(e.func) == INFER:
+        return ("infer", None)
+    if isinstance(e, ast.Name) and depth < 6:
+        for j in range(idx - 1, -1, -1):
+            ev = trace[j]
+            if ev[0] == "assign" and ev[1] == e.id:
+                v = _expr(ev[2])
+                return _resolve_codec(v, trace, j, depth + 1) if v is not None else ("other", ev[2])
+    return ("other", ast.unparse(e) if e is not None else "?")
+
+
+def _header_tainted(trace):
+    """Names whose value was computed from the message headers / the inferred charset along the path."""
+    tainted = set()
+
+    def dirty(txt):
+        if INFER in txt or "self.headers" in txt or "self.data.headers" in txt:
+            return True
+        x = _expr(txt)
+        return x is not None and any(isinstance(n, ast.Name) and n.id in tainted for n in ast.walk(x))
+
+    for e in trace:
+        if e[0] == "assign" and e[1].isidentifier() and dirty(e[2].removeprefix("aug:")):
+            tainted.add(e[1])
+    return dirty
+
+
+def _declares(trace, codec):
+    """Does the path set the charset parameter to a constant naming ``codec`` and rebuild Content-Type afterwards?"""
+    cs = [i for i, e in enumerate(trace) if e[0] == "assign" and _q(e[1]).endswith("['charset']")]
+    hd = [i for i, e in enumerate(trace) if e[0] == "assign" and _q(e[1]).lower() in ("self.headers['content-type']", "self.data.headers['content-type']") and "assemble_content_type" in e[2]]
+    if not cs or not hd or hd[-1] < cs[-1]:
+        return False
+    kind, val = _resolve_codec(_expr(trace[cs[-1]][2]), trace, cs[-1])
+    return kind == "const" and _codec(val) == _codec(codec)
+
+
+def _r32_3(ctx, st, text, r322_bad):
+    where = (HTTP, "Message.set_text", st)
+    trs, eng = paths(st, keep=lambda e: e[0] in ("assign", "return", "raise") or (e[0] == "call" and e[1].startswith("self.") and not e[1].startswith(("self.headers.", "self.data.headers."))))
+    ctx.paths += len(trs)
+    n = 0
+    for t, how in trs:
+        if how != "return":
+            continue
+        n += 1
+        conds = [e for e in t if e[0] == "cond"]
+        label = show(conds, 6) or "unconditional"
+        ctx.require(not any(e[0] == "assign" and e[1] == text for e in t), f"Message.set_text re-binds its parameter {text!r} before storing it (shape not modelled): [{label}]")
+        ctx.require(not any(e[0] == "assign" and e[1] in ("self.raw_content", "self.data.content") for e in t), f"Message.set_text writes the raw content directly (shape not modelled): [{label}]")
+        dirty = _header_tainted(t)
+        guarded = any(dirty(e[1]) for e in conds)
+        stores = [i for i, e in enumerate(t) if e[0] == "assign" and e[1] == "self.content"]
+        if not stores:
+            helper = [e[1] for e in t if e[0] == "call"]
+            ctx.require(not helper, f"Message.set_text: path [{label}] stores nothing itself but calls {helper} (helper methods are not modelled)")
+            ctx.require(not guarded and not any("self" in e[1] for e in conds), f"Message.set_text: path [{label}] returns without storing; its guard depends on the message state (shape not modelled)")
+            ctx.fail("R32.3", where, f"set_text returns without storing content on [{label}]", "a text assigned on this path is dropped: reading it back yields the previous body")
+            continue
+        i = stores[-1]
+        v, at = _deref(_expr(t[i][2]), t, i)
+        absent = _falsy_fact(t[:i], text)
+        if isinstance(v, ast.Constant) and (v.value is None or v.value == b""):
+            ctx.check(absent == "none" or (absent == "falsy" and v.value is not None), "R32.3", where, f"set_text stores {t[i][2]} on [{label}]", f"the path stores {t[i][2]} although {text} is not known to be None (for None) / empty (for b''): the assigned text is lost",
+                      desc=f"[{label}] stores {t[i][2]} for an absent text")
+            continue
+        codec_e = _encode_idiom(v, text)
+        ctx.require(codec_e is not None, f"Message.set_text: stored value {t[i][2]!r} on [{label}] is not an encoding of the {text!r} parameter (shape not modelled)")
+        kind, val = _resolve_codec(codec_e, t, at)
+        if kind == "infer":
+            ctx.ok("R32.3", f"[{label}] stores {text} encoded with the charset {INFER} returned")
+        elif kind == "const":
+            if _declares(t, val):
+                ctx.ok("R32.3", f"[{label}] stores {text} encoded with {val!r} and declares it in Content-Type")
+            elif r322_bad and any(e[0] == "except" for e in t):
+                pass  # the fallback path's own defects are reported by R32.2
+            else:
+                ctx.require(not guarded, f"Message.set_text: path [{label}] stores {text} under the constant codec {val!r} behind a test on the header / inferred charset (guarded fast path not modelled)")
+                ctx.fail("R32.3", where, f"set_text stores {ast.unparse(v)} on [{label}]",
+                         f"the body is written with the constant codec {val!r} without declaring it in Content-Type, and the path does not depend on the header: for a declared charset that "
+                         f"encodes the same text differently (utf-16le, utf-32be, cp037) or is unknown, get_text decodes with another codec (mojibake / ValueError) and the charset is not updated")
+        else:
+            raise AnalysisError(f"Message.set_text: codec {val!r} of the store on [{label}] is neither the {INFER} result nor a constant (shape not modelled)")
+    ctx.require(n >= 1, "Message.set_text has no returning path")
+
+
+# ---------------------------------------------------------------------------------------------------
+# R32.4 decision table of infer_content_encoding
+
+_MEDIA_Q = ["text/html", "application/xhtml+xml", "text/xml", "application/xml", "image/svg+xml", "text/css", "application/json", "application/javascript", "text/plain"]
+_MEDIA_T = ["application/rss+xml", "text/ecmascript", "application/ld+json", "application/octet-stream", "text/html+css", "text/css+xml+html"]
+_HDR_CS = ["utf-8", "iso-8859-1", "utf-16le", "gb2312", "x-unknown-charset"]
+_BODY_CS = ["utf-8", "iso-8859-1", "windows-1252", "gb2312", "x-not-a-charset"]
+_HDR_FMT_Q = ["%s; charset=%s"]
+_HDR_FMT_T = ["%s;foo=bar; charset=%s"]
+_DECLS = {
+    "<meta charset>": [b'<!doctype html><html><head><meta charset="%s"><title>t</title></head><body>x</body></html>', b"<meta charset=%s>"],
+    "<meta http-equiv>": [b'<html><head><meta http-equiv="Content-Type" content="text/html; charset=%s"></head><body>x</body></html>'],
+    "<?xml encoding?>": [b'<?xml version="1.0" encoding="%s"?><r/>', b"<?xml version='1.0' encoding='%s'?><r/>"],
+    "@charset": [b'@charset "%s";\nbody{}'],
+}
+_DECLS_T = {  # thorough tier: the same declarations after leading markup
+    "<meta charset>": [b"\n  <!-- c -->\n<HTML><META CHARSET='%s'>"],
+    "<?xml encoding?>": [b'\n<?XML version="1.0" encoding="%s" standalone="yes"?><r/>'],
+}
+
+
+def _r32_4(ctx, ips, read, ev_set, ev_get):
+    where = (HDRS, INFER, ctx.func(HDRS, INFER))
+    need = ev_get[0]
+    hdr_p = [p for p, v in need.items() if "headers" in v]
+    body_p = [p for p in need if p not in hdr_p]
+    ctx.require(len(hdr_p) == 1 and len(body_p) <= 1, f"get_text: roles of the {INFER} arguments not recognised: {need}")
+    if not body_p:
+        ctx.ok("R32.4", "not armed: the decoder does not sniff the body")
+        return 1
+    if not ev_set or any(set(e) != set(hdr_p) for e in ev_set):
+        ctx.ok("R32.4", "not armed: the encoder does not infer from the Content-Type alone (R32.1 decides the evidence)")
+        return 1
+    import collections
+    import re
+
+    it = Interp(ctx.model, trusted_modules={"re": re, "collections": collections})
+
+    def infer(**kw):
+        it.steps = 0  # the step bound guards one interpretation, not the whole table
+        try:
+            return it.call(HDRS, INFER, **kw)
+        except Raised as r:
+            return f"<raises {r.name}>"
+
+    thorough = ctx.tier == "thorough"
+    media = _MEDIA_Q + (_MEDIA_T if thorough else [])
+    fmts = _HDR_FMT_Q + (_HDR_FMT_T if thorough else [])
+    prefixes = [b""]
+    n_kinds = 0
+    for kind, templates in _DECLS.items():
+        if thorough:
+            templates = templates + _DECLS_T.get(kind, [])
+        bad = []
+        cells = 0
+        for mt in media:
+            for fmt in fmts:
+                for h in _HDR_CS:
+                    ct = fmt % (mt, h)
+                    enc_side = infer(**{hdr_p[0]: ct})
+                    for tpl in templates:
+                        for b in _BODY_CS:
+                            if _codec(b) == _codec(h):
+                                continue
+                            for pre in prefixes:
+                                if pre and kind == "@charset":
+                                    continue  # an @charset rule only counts as the very first bytes
+                                body = pre + tpl % b.encode()
+                                cells += 1
+                                dec_side = infer(**{hdr_p[0]: ct, body_p[0]: body})
+                                if dec_side != enc_side:
+                                    bad.append((ct, body, enc_side, dec_side))
+        ctx.cells += cells
+        n_kinds += 1
+        if bad:
+            ct, body, e_, d_ = bad[0]
+            ctx.fail("R32.4", where, f"{INFER}: in-body {kind} outranks an explicit Content-Type charset",
+                     f"{len(bad)}/{cells} cells, e.g. Content-Type {ct!r} + body {body[:70]!r}: set_text encodes with {e_!r} (header only) but get_text decodes with {d_!r}: "
+                     "text carrying a stale/other in-body declaration no longer reads back although the header declares the charset",
+                     sample=[(c, bd.decode('latin-1'), a, b_) for c, bd, a, b_ in bad[:5]])
+        else:
+            ctx.ok("R32.4", f"in-body {kind} never outranks an explicit header charset ({cells} cells)")
+    return n_kinds
+
+
 def check(ctx):
     ctx.rule("R32.1", "set_text and get_text hand the same (actually read) evidence to infer_content_encoding")
     ctx.rule("R32.2", "UTF-8 fallback: declared charset == codec used, header rebuilt, surrogateescape; get_text(strict=False) falls back identically")
+    ctx.rule("R32.3", "every returning path of set_text stores the unmodified text encoded with the charset infer_content_encoding returned (what get_text will infer) or with a constant it declares in Content-Type")
+    ctx.rule("R32.4", "infer_content_encoding (interpreted over media types x header charsets x in-body declarations): a BOM-free in-body declaration never outranks an explicit Content-Type charset")
     inf = ctx.func(HDRS, INFER)
     ips = params(inf, drop_self=False)
     ctx.require(len(ips) >= 1, f"{INFER} signature changed")
@@ -65,14 +356,23 @@ def check(ctx):
             return None
         ctx.require(len(cs) == 1 or len({ast.unparse(c) for c in cs}) == 1 or qual.endswith("set_text"), f"{qual}: several different {INFER} calls")
         out = []
+
+        def txt(a):
+            # a local that is bound exactly once in the function to a header read denotes that read (alias, not new evidence)
+            if isinstance(a, ast.Name):
+                src = [n.value for n in ast.walk(fn) if isinstance(n, ast.Assign) and any(isinstance(t, ast.Name) and t.id == a.id for t in n.targets)]
+                if len(src) == 1 and "headers" in ast.unparse(src[0]):
+                    return _q(ast.unparse(src[0]))
+            return _q(ast.unparse(a))
+
         for c in cs:
             ev = {}
             for i, a in enumerate(c.args):
                 ctx.require(i < len(ips) and not isinstance(a, ast.Starred), f"{qual}: {INFER} call not modelled: {ast.unparse(c)}")
-                ev[ips[i]] = _q(ast.unparse(a))
+                ev[ips[i]] = txt(a)
             for k in c.keywords:
                 ctx.require(k.arg in ips, f"{qual}: {INFER} call not modelled: {ast.unparse(c)}")
-                ev[k.arg] = _q(ast.unparse(k.value))
+                ev[k.arg] = txt(k.value)
             out.append({p: v for p, v in ev.items() if p in read})
         return out
 
@@ -191,11 +491,32 @@ def check(ctx):
     if not bad and not bad2:
         ctx.ok("R32.2", f"get_text(strict=False) fallback: decode({fb_codec!r}, {fb_err!r})")
 
+    # ---- R32.3 every stored body is in the decoder's charset
+    _r32_3(ctx, st, text, bad)
+
+    # ---- R32.4 header-first ordering of the charset evidence
+    n4 = _r32_4(ctx, ips, read, ev_set, ev_get)
+
     expect(ctx, "R32.1", 2)
     expect(ctx, "R32.2", 2)
+    expect(ctx, "R32.3", 3)
+    expect(ctx, "R32.4", n4)
 
+
+_MAIN = "        enc = infer_content_encoding(self.headers.get(\"content-type\", \"\"))\n\n        try:\n            self.content = cast(bytes, encoding.encode(text, enc))"
+_HDR_ELIF = "    elif parsed_content_type := parse_content_type(content_type):\n"
 
 MUTANTS = [
+    # R32.3: stores that bypass the charset the decoder infers
+    Mutant("ascii-fast-path", HTTP, _MAIN, "        if text.isascii():\n            self.content = text.encode(\"ascii\")\n            return\n" + _MAIN, "R32.3"),
+    Mutant("main-store-constant-codec", HTTP, "            self.content = cast(bytes, encoding.encode(text, enc))\n", "            self.content = cast(bytes, encoding.encode(text, \"utf8\"))\n", "R32.3"),
+    Mutant("blank-text-dropped", HTTP, _MAIN, "        if not text.strip():\n            return\n" + _MAIN, "R32.3"),
+    Mutant("empty-text-stored-as-none", HTTP, "        if text is None:\n            self.content = None\n            return\n        enc = infer", "        if not text:\n            self.content = None\n            return\n        enc = infer", "R32.3"),
+    # R32.4: an in-body declaration outranks the explicit header charset
+    Mutant("meta-charset-before-header", HDRS, _HDR_ELIF,
+           "    elif \"html\" in content_type and (m_ := re.search(rb\"<meta[^>]+charset=['\\\"]?([^'\\\">]+)\", content, re.IGNORECASE)):\n        enc = m_.group(1).decode(\"ascii\", \"ignore\")\n" + _HDR_ELIF, "R32.4"),
+    Mutant("xml-declaration-ignores-header", HDRS, "    if not enc and \"xml\" in content_type:\n", "    if \"xml\" in content_type:\n", "R32.4"),
+    Mutant("css-charset-ignores-header", HDRS, "    if not enc and \"text/css\" in content_type:\n", "    if \"text/css\" in content_type:\n", "R32.4"),
     # R32.1 fires on the pinned tree (F-C32, known finding); the self-test only counts findings the unmutated tree does not
     # have, so these mutants model *other* evidence asymmetries (different keys).
     Mutant("encoder-ignores-content-type", HTTP, "        enc = infer_content_encoding(self.headers.get(\"content-type\", \"\"))\n\n        try:\n            self.content = cast(bytes, encoding.encode(text, enc))",
